@@ -269,9 +269,10 @@ def leAt (b : Bytes) (off w : Nat) : Option Nat :=
   let s := slice b off w
   if s.length == w then some (fromLE s) else none
 
-/-- bytes up to (not including) the first NUL at/after `off`; none if there is no NUL -/
+/-- bytes up to (not including) the first NUL at/after `off`; none if there is no NUL among the
+    first `sfoMaxKeyLen` bytes (the key is read through an io.LimitReader) -/
 def cstrAt (b : Bytes) (off : Nat) : Option Bytes :=
-  let t := b.drop off
+  let t := (b.drop off).take Gen.fs_sfoMaxKeyLen
   if t.contains 0 then some (t.takeWhile (· != 0)) else none
 
 def sfoLoop (b : Bytes) (keyStart : Nat) (field : Bytes) : Nat → Nat → Option (Option (Nat × Nat))
@@ -296,7 +297,8 @@ def sfoField (b : Bytes) (field : Bytes) : Option Bytes :=
     | none => none
     | some none => none
     | some (some (dataLen, dataOff)) =>
-      if dataLen == 0 then some []
+      if dataLen > Gen.fs_sfoMaxValueLen then none      -- the declared length never drives an allocation
+      else if dataLen == 0 then some []
       else
         let v := slice b (dataStart + dataOff) (dataLen - 1)
         if v.length == dataLen - 1 then some v else none
